@@ -170,6 +170,10 @@ fn main() {
                 replayed += 1;
                 match (p.replay)(&doc["case"], &rec, &ctx) {
                     Ok(()) => {}
+                    Err(msg) if msg.starts_with("replay file does not hold a case") => {
+                        // a saved input written by an older version of the case type: not a verdict about the code
+                        eprintln!("HARNESS-NOTE: saved input {} is not understood by this version of the check and is skipped: {}", f.display(), msg);
+                    }
                     Err(msg) => {
                         println!("VIOLATION property={} replay={}", id, f.display());
                         println!("  part={} (saved input) message={}", part_name, msg);
